@@ -278,10 +278,19 @@ func streamEdsReconcile(r *rand.Rand, i int, tier string) *Case {
 		curTpl = 2
 		cat = append(cat, "directed:stale-canary-selection")
 	}
+	// second directed class (one case in fifteen): a canary with PERCENTAGE replicas is running, the stored
+	// status.desired is inflated (it sums the active and the canary replica sets while the canary starts),
+	// and one List call of the reconcile fails.  Whatever the reconcile then writes, the canary list must
+	// not grow beyond the percentage of the nodes the ExtendedDaemonSet really targets.
+	directedPct := !directed && r.Intn(15) == 0
+	if directedPct {
+		curTpl = 2
+		cat = append(cat, "directed:percent-canary-read-fault")
+	}
 	// per case, every template of the history carries the same scheduling constraint (or none), so
 	// that node fitness matters for the nodes the EDS targets and the canary nodes it selects
 	deco := r.Intn(4)
-	if directed {
+	if directed || directedPct {
 		deco = 0
 	}
 	metaDiff := r.Intn(2) == 0
@@ -307,7 +316,7 @@ func streamEdsReconcile(r *rand.Rand, i int, tier string) *Case {
 	}
 	eds.Spec.Template = tplCase(curTpl)
 	eds.Spec.Strategy = defaultedStrategy()
-	hasCanary := r.Intn(4) != 0 || directed
+	hasCanary := r.Intn(4) != 0 || directed || directedPct
 	if hasCanary {
 		eds.Spec.Strategy.Canary = genCanarySpec(r)
 		c := eds.Spec.Strategy.Canary
@@ -339,7 +348,12 @@ func streamEdsReconcile(r *rand.Rand, i int, tier string) *Case {
 		c.NodeSelector, c.NodeAntiAffinityKeys = &metav1.LabelSelector{}, nil
 		c.Replicas = ios(intstr.FromInt(1 + r.Intn(2)))
 	}
-	switch r.Intn(12) + map[bool]int{true: 100, false: 0}[directed] {
+	if directedPct {
+		c := eds.Spec.Strategy.Canary
+		c.NodeSelector, c.NodeAntiAffinityKeys = &metav1.LabelSelector{}, nil
+		c.Replicas = ios(intstr.FromString(pick(r, "50%", "50%", "25%", "34%")))
+	}
+	switch r.Intn(12) + map[bool]int{true: 100, false: 0}[directed || directedPct] {
 	case 0: // not defaulted
 		eds.Spec.Strategy.ReconcileFrequency = nil
 		cat = append(cat, "not-defaulted")
@@ -377,7 +391,7 @@ func streamEdsReconcile(r *rand.Rand, i int, tier string) *Case {
 			eds.Annotations[k] = v
 		}
 	}
-	if directed {
+	if directed || directedPct {
 		eds.Labels = nil
 		eds.Annotations = map[string]string{}
 	}
@@ -437,7 +451,7 @@ func streamEdsReconcile(r *rand.Rand, i int, tier string) *Case {
 	if r.Intn(4) == 0 { // another EDS in the same namespace
 		all = append(all, mk("bar-a", testNS, pick(r, ids...), "bar"))
 	}
-	if directed {
+	if directed || directedPct {
 		delete(eds.Annotations, edsv1.ExtendedDaemonSetCanaryValidAnnotationKey)
 		a, b := newERS("foo-a", tplCase(1), now.Add(-time.Hour)), newERS("foo-b", tplCase(2), now.Add(-20*time.Second))
 		a.Status.Desired, a.Status.Current, a.Status.Ready, a.Status.Available = 3, 3, 3, 3
@@ -478,6 +492,16 @@ func streamEdsReconcile(r *rand.Rand, i int, tier string) *Case {
 		eds.Status.ActiveReplicaSet, eds.Status.Canary, eds.Status.Conditions = "foo-a", nil, nil
 		eds.Status.State = edsv1.ExtendedDaemonSetStatusStateRunning
 	}
+	nnPct := 4 + r.Intn(3)
+	if directedPct {
+		eds.Status.ActiveReplicaSet, eds.Status.Conditions = "foo-a", nil
+		eds.Status.State = edsv1.ExtendedDaemonSetStatusStateCanary
+		eds.Status.Desired = int32(nnPct + 1 + r.Intn(3)) // active + canary counted twice while the canary starts
+		eds.Status.Canary = &edsv1.ExtendedDaemonSetStatusCanary{ReplicaSet: "foo-b", Nodes: []string{}}
+		for k := 0; k < pick(r, 0, 1, 2); k++ {
+			eds.Status.Canary.Nodes = append(eds.Status.Canary.Nodes, fmt.Sprintf("n%d", k))
+		}
+	}
 	objs = append(objs, eds)
 	var cnodes []canon.Node
 	var cpods []canon.Pod
@@ -485,12 +509,15 @@ func streamEdsReconcile(r *rand.Rand, i int, tier string) *Case {
 	if directed {
 		nn = 3 + r.Intn(3)
 	}
+	if directedPct {
+		nn = nnPct
+	}
 	for k := 0; k < nn; k++ {
 		n := genNode(r, fmt.Sprintf("n%d", k), deco != 0)
 		objs = append(objs, n)
 		cnodes = append(cnodes, canon.CNode(n, testNS, testEDS))
-		if r.Intn(2) == 0 || directed {
-			p := &corev1.Pod{ObjectMeta: metav1.ObjectMeta{Name: fmt.Sprintf("p%d", k), Namespace: pick(r, testNS, testNS, map[bool]string{true: testNS, false: "ns2"}[directed]),
+		if r.Intn(2) == 0 || directed || directedPct {
+			p := &corev1.Pod{ObjectMeta: metav1.ObjectMeta{Name: fmt.Sprintf("p%d", k), Namespace: pick(r, testNS, testNS, map[bool]string{true: testNS, false: "ns2"}[directed || directedPct]),
 				Labels: map[string]string{edsv1.ExtendedDaemonSetNameLabelKey: testEDS}}}
 			p.Spec.NodeName = n.Name
 			p.Spec.Containers = []corev1.Container{{Name: "main", Image: "i"}}
@@ -507,7 +534,7 @@ func streamEdsReconcile(r *rand.Rand, i int, tier string) *Case {
 	// lost one of its first writes (rejected, or applied with the answer lost): the states "between
 	// two writes" that only a crash or an API error produces.
 	var failAt map[int]string
-	prerun := r.Intn(3) == 0 || directed
+	prerun := (r.Intn(3) == 0 || directed) && !directedPct
 	if prerun {
 		failAt = map[int]string{}
 		switch r.Intn(4) * map[bool]int{true: 0, false: 1}[directed] {
@@ -620,6 +647,13 @@ func streamEdsReconcile(r *rand.Rand, i int, tier string) *Case {
 		})
 		sw.use(cl)
 	}
+	// one case in ten (fault-free otherwise): the k-th List call of this reconcile fails
+	readFault := !prerun && !staleRead && (r.Intn(10) == 0 || directedPct)
+	if readFault {
+		k := r.Intn(4)
+		cat = append(cat, fmt.Sprintf("read-fault:list#%d", k))
+		sw.use(&listFaultClient{Client: cl, failAt: k})
+	}
 	// the reconciler reads what the API server stored (timestamps truncated to seconds)
 	stored := &edsv1.ExtendedDaemonSet{}
 	_ = cl.Get(context.TODO(), types.NamespacedName{Namespace: testNS, Name: testEDS}, stored)
@@ -629,6 +663,9 @@ func streamEdsReconcile(r *rand.Rand, i int, tier string) *Case {
 	in := map[string]interface{}{"eds": canon.CEDS(stored), "ers": cers, "pods": cpods, "nodes": cnodes, "defaultMode": string(mode)}
 	out, nowC := runEdsReconcile(rec, wl, testNS, testEDS)
 	in["now"] = nowC
+	if readFault {
+		in["readFault"] = true
+	}
 	if staleRead {
 		after := &edsv1.ExtendedDaemonSet{}
 		_ = cl.Get(context.TODO(), types.NamespacedName{Namespace: testNS, Name: testEDS}, after)
